@@ -245,6 +245,9 @@ structure ArmOut where
   tree : Expr
   /-- is a `,` printed behind it -/
   comma : Bool
+  /-- what follows `=>` (the body, or the `{` added in front of it) starts a line of its own (under the default
+  `control_brace_style`) -/
+  ownLine : Bool
   deriving DecidableEq, Repr
 
 /-- the block `combine_next_line_body` prints around a body that is not a block: under the 2024 style edition with a
@@ -273,11 +276,11 @@ def rewriteMatchBodyWith (wc : ArmCfg → Bool → Bool) (c : ArmCfg) (x : ArmCt
   let isBlock := body.isBlock
   let comma := armCommaOf c body x.isLast
   let forbid := (x.guardMl && !body.isEmptyBlock) || body.attrs != 0
-  let same : ArmOut := ⟨.sameLine, body, comma⟩
+  let same : ArmOut := ⟨.sameLine, body, comma, false⟩
   let next : ArmOut :=
-    if isBlock then ⟨.nextLine, body, comma⟩
-    else if c.matchArmBlocks && !c.insideMacro then ⟨.nextLineBlock, wrapArm c body, wc c x.isLast⟩
-    else ⟨.nextLine, body, true⟩
+    if isBlock then ⟨.nextLine, body, comma, true⟩
+    else if c.matchArmBlocks && !c.insideMacro then ⟨.nextLineBlock, wrapArm c body, wc c x.isLast, forbid || x.arrowComment⟩
+    else ⟨.nextLine, body, true, true⟩
   let orig : Rw := if forbid || x.arrowComment then .err else if o.shapeOk then o.orig body else .err
   match orig with
   | .ok multi fits firstFits =>
@@ -466,13 +469,19 @@ def strip : Expr → Expr
   | .blockS h e rest => if h.plain && rest.isEmpty && e.isJump then e else .blockS h e rest
   | x => x
 
-/-- empty statements left out (`redundant semicolons`): what is compared with the printed text read back -/
+/-- the property's "redundant semicolons" as the statement printer (`format_stmt`, `semicolon_for_stmt`,
+`semicolon_for_expr`; OptRewrites §7) leaves them: empty statements are dropped, there is no `;` behind a `while` /
+`loop` / `for` statement, and a `return` / `break` / `continue` that ends a block has one or not according to
+`trailing_semicolon` (normalised to none).  What is compared with the printed text read back. -/
 def dropEmpty : Expr → Expr
   | .leaf k a => .leaf k a
   | .un k a e => .un k a (dropEmpty e)
   | .closure r a b => .closure r a (dropEmpty b)
   | .blockE h e rest => .blockE h (dropEmpty e) (rest.filter (· != .empty))
-  | .blockS h e rest => .blockS h (dropEmpty e) (rest.filter (· != .empty))
+  | .blockS h e rest =>
+    let rest' := rest.filter (· != .empty)
+    if e.cls == .loop_ || (e.cls == .jump && rest'.isEmpty) then .blockE h (dropEmpty e) rest'
+    else .blockS h (dropEmpty e) rest'
   | .blockO h stmts => .blockO h (stmts.filter (· != .empty))
 
 /-- `strip` applied to the body of every closure inside the expression as well -/
